@@ -185,7 +185,9 @@ def generate(template_path, repo):
         s = line.strip()
         if s.startswith('//@capture'):
             # //@capture NAME file=<rel> :: <python regex with one group>  -> {{NAME}} = group(1) of the unique match
-            m = re.match(r'//@capture\s+(\w+)\s+file=(\S+)\s*::\s*(.*)$', s)
+            # //@capture_f64 ...: the captured f64 expression is translated to a spec expression over `real` (rule R13)
+            as_real = s.startswith('//@capture_f64')
+            m = re.match(r'//@capture(?:_f64)?\s+(\w+)\s+file=(\S+)\s*::\s*(.*)$', s)
             if not m:
                 raise AnchorLost('bad capture directive: ' + s)
             src = source(m.group(2))
@@ -193,6 +195,8 @@ def generate(template_path, repo):
             if len(found) != 1:
                 raise AnchorLost('capture %s: regex matched %d times in %s (need exactly 1)' % (m.group(1), len(found), m.group(2)))
             captures[m.group(1)] = ' '.join(found[0].group(1).split())
+            if as_real:
+                captures[m.group(1)] = f64_to_real(captures[m.group(1)])
             g.rewrites.append({'where': 'capture ' + m.group(1) + ' (' + m.group(2) + ')', 'old': found[0].group(0)[:200], 'new': '{{%s}} = %s' % (m.group(1), captures[m.group(1)]), 'count': 1})
             g.emit('// ---- captured from %s: %s = %s ----' % (m.group(2), m.group(1), captures[m.group(1)]))
             i += 1
@@ -384,3 +388,87 @@ def _emit_fn(g, src, args, spec, loops, replaces, proofs=(), attrs=()):
         'line_start': cut['line_start'], 'line_end': cut['line_end'], 'sha256_16': cut['sha'],
         'gen_start': gen_start, 'gen_end': gen_end, 'clauses': clauses, 'n_loops_annotated': len(loops),
     })
+
+
+# ---------------------------------------------------------------------------------------------------
+# R13: mechanical translation of a captured f64 expression into a Verus spec expression over `real`.
+# Grammar (anything else => AnchorLost => undecided, never an alarm):
+#   expr := term (('+'|'-') term)*    term := unary (('*'|'/') unary)*    unary := '-' unary | post
+#   post := prim ( '.' name '(' [expr] ')' | 'as' type )*
+#   prim := float literal | integer literal | path (a leading `self.` is dropped) | '(' expr ')'
+# ceil/floor/round -> rceil/rfloor/rround (as real), max/min -> rmax/rmin, `*` -> rmul (opaque product),
+# `as f64` -> `as real`, `as usize` -> r2usize (truncating, saturating).
+# ASSUMED: f64 arithmetic taken as real arithmetic (no rounding error, no NaN/inf).
+def f64_to_real(text):
+    toks = re.findall(r'\d+\.\d*|\d+|[A-Za-z_][A-Za-z_0-9]*|[-+*/().,]|\S', text)
+    pos = [0]
+    def bad(why):
+        raise AnchorLost('f64 expression outside the translated subset (R13): %s in: %s' % (why, text))
+    def peek(k=0):
+        return toks[pos[0] + k] if pos[0] + k < len(toks) else None
+    def take(t=None):
+        x = peek()
+        if x is None or (t is not None and x != t):
+            bad('unexpected %r' % (x,))
+        pos[0] += 1
+        return x
+    def expr():
+        l = term()
+        while peek() in ('+', '-'):
+            op = take(); r = term(); l = '(%s %s %s)' % (l, op, r)
+        return l
+    def term():
+        l = unary()
+        while peek() in ('*', '/'):
+            op = take(); r = unary()
+            l = 'rmul(%s, %s)' % (l, r) if op == '*' else '(%s / %s)' % (l, r)
+        return l
+    def unary():
+        if peek() == '-':
+            take(); return '(0real - %s)' % unary()
+        return post()
+    def post():
+        p = prim()
+        while True:
+            if peek() == '.':
+                take('.'); name = take(); take('(')
+                arg = None
+                if peek() != ')':
+                    arg = expr()
+                take(')')
+                if name in ('ceil', 'floor', 'round') and arg is None:
+                    p = '(r%s(%s) as real)' % (name, p)
+                elif name in ('max', 'min') and arg is not None:
+                    p = 'r%s(%s, %s)' % (name, p, arg)
+                else:
+                    bad('method .%s()' % name)
+            elif peek() == 'as':
+                take('as'); ty = take()
+                if ty == 'f64':
+                    p = '(%s as real)' % p
+                elif ty == 'usize':
+                    p = 'r2usize(%s)' % p
+                else:
+                    bad('cast to %s' % ty)
+            else:
+                return p
+    def prim():
+        t = peek()
+        if t == '(':
+            take('('); e = expr(); take(')'); return e
+        if t is not None and re.match(r'\d+\.\d*$', t):
+            take(); return (t + '0' if t.endswith('.') else t) + 'real'
+        if t is not None and re.match(r'\d+$', t):
+            take(); return t
+        if t is not None and re.match(r'[A-Za-z_]', t) and t != 'as':
+            take(); path = [t]
+            while peek() == '.' and peek(1) is not None and re.match(r'[A-Za-z_]', peek(1)) and peek(2) != '(':
+                take('.'); path.append(take())
+            if path[0] == 'self' and len(path) > 1:
+                path = path[1:]
+            return '_'.join(path)
+        bad('unexpected %r' % (t,))
+    e = expr()
+    if peek() is not None:
+        bad('trailing %r' % (peek(),))
+    return e
